@@ -32,7 +32,7 @@ type Conn struct {
 	closed bool
 	rdl    time.Time
 	wdl    time.Time
-	rwake  chan struct{}
+	rwake  chan struct{} // closed and replaced on every event (broadcast)
 	swake  chan struct{}
 	start  time.Time
 
@@ -60,14 +60,26 @@ type Conn struct {
 }
 
 func NewConn() *Conn {
-	return &Conn{rwake: make(chan struct{}, 1), swake: make(chan struct{}, 1), FailWriteAt: -1, CutReadAt: -1, start: time.Now()}
+	return &Conn{rwake: make(chan struct{}), swake: make(chan struct{}), FailWriteAt: -1, CutReadAt: -1, start: time.Now()}
 }
 
-func kick(ch chan struct{}) {
-	select {
-	case ch <- struct{}{}:
-	default:
-	}
+// kickR / kickS wake every waiter of the read side / write side.
+func (c *Conn) kickR() {
+	c.mu.Lock()
+	close(c.rwake)
+	c.rwake = make(chan struct{})
+	c.mu.Unlock()
+}
+
+func (c *Conn) kickS() {
+	c.mu.Lock()
+	c.kickSLocked()
+	c.mu.Unlock()
+}
+
+func (c *Conn) kickSLocked() {
+	close(c.swake)
+	c.swake = make(chan struct{})
 }
 
 func (c *Conn) obj() uintptr { return uintptr(unsafe.Pointer(c)) }
@@ -99,7 +111,7 @@ func (c *Conn) Deliver(b []byte) {
 	c.in = append(c.in, b...)
 	c.sent += len(b)
 	c.mu.Unlock()
-	kick(c.rwake)
+	c.kickR()
 }
 
 // CutRead makes the client see EOF after the pending bytes.
@@ -108,7 +120,7 @@ func (c *Conn) CutRead() {
 	c.mu.Lock()
 	c.eof = true
 	c.mu.Unlock()
-	kick(c.rwake)
+	c.kickR()
 }
 
 // Await blocks the calling (controlled) thread until pred holds on the client's output.
@@ -118,12 +130,13 @@ func (c *Conn) Await(pred func(out []byte, closed bool) bool) {
 	for {
 		c.mu.Lock()
 		ok := pred(c.Out, c.closed)
+		wake := c.swake
 		c.mu.Unlock()
 		if ok {
 			break
 		}
 		blocked = true
-		<-c.swake
+		<-wake
 	}
 	if blocked {
 		vsched.After(t)
@@ -188,6 +201,7 @@ func (c *Conn) Read(p []byte) (int, error) {
 			return 0, nil
 		}
 		dl := c.rdl
+		wake := c.rwake
 		c.mu.Unlock()
 		if !dl.IsZero() {
 			d := time.Until(dl)
@@ -197,13 +211,13 @@ func (c *Conn) Read(p []byte) (int, error) {
 			blocked = true
 			tm := time.NewTimer(d)
 			select {
-			case <-c.rwake:
+			case <-wake:
 				tm.Stop()
 			case <-tm.C:
 			}
 		} else {
 			blocked = true
-			<-c.rwake
+			<-wake
 		}
 	}
 }
@@ -215,6 +229,7 @@ func (c *Conn) Write(p []byte) (int, error) {
 		for {
 			c.mu.Lock()
 			closed, dl := c.closed, c.wdl
+			wake := c.swake
 			c.mu.Unlock()
 			if closed {
 				if blocked {
@@ -233,19 +248,19 @@ func (c *Conn) Write(p []byte) (int, error) {
 				blocked = true
 				tm := time.NewTimer(d)
 				select {
-				case <-c.swake:
+				case <-wake:
 					tm.Stop()
 				case <-tm.C:
 				}
 			} else {
 				blocked = true
-				<-c.swake
+				<-wake
 			}
 		}
 	}
 	c.mu.Lock()
 	defer c.mu.Unlock()
-	defer kick(c.swake)
+	defer c.kickSLocked()
 	tid := -1
 	if t != nil {
 		tid = t.ID
@@ -280,8 +295,8 @@ func (c *Conn) Close() error {
 		c.Calls = append(c.Calls, "close")
 	}
 	c.mu.Unlock()
-	kick(c.rwake)
-	kick(c.swake)
+	c.kickR()
+	c.kickS()
 	if already {
 		return net.ErrClosed
 	}
@@ -311,7 +326,7 @@ func (c *Conn) SetReadDeadline(t time.Time) error {
 	if !t.IsZero() {
 		vsched.RegisterTimer(t)
 	}
-	kick(c.rwake)
+	c.kickR()
 	return nil
 }
 
@@ -328,7 +343,7 @@ func (c *Conn) SetWriteDeadline(t time.Time) error {
 	if !t.IsZero() {
 		vsched.RegisterTimer(t)
 	}
-	kick(c.swake)
+	c.kickS()
 	return nil
 }
 
